@@ -317,6 +317,25 @@ def run_shard(spec_, res):
                 import dataclasses
                 dataclasses.make_dataclass("Row" + cls.__name__, [(f"f{j}", object, dataclasses.field(default=v)) for j, v in enumerate(ns.values()) if not isinstance(v, dict)])
             res.count("application_bindings_defined")
+            # an application type of its own, declaring controllers with the tuple shorthand (bounds that library controllers use
+            # too) and an option that excludes an inherited one; afterwards it narrows ITS OWN ranges in place
+            from rv.option import Option
+            own = {"__module__": cls.__module__, "__doc__": cls.__doc__}
+            for j, bounds in enumerate(((0, 256), (0, 1024), (0, 32768), (-128, 128), (0, 255), (0, 100), (0, 1000), (1, 16), (0, 512), (0, 2000))):
+                own[f"rvmon_own_{j}"] = Controller(bounds, bounds[0])
+            flags_ = [o for o in cls.options.values() if o.size == 1]
+            if flags_:
+                top = max(o.byte for o in cls.options.values())
+                own["rvmon_own_flag"] = Option(name="rvmon_own_flag", byte=top + 1, bit=0, size=1, default=False, exclusive_of=[flags_[0].name])
+            try:
+                App = type(cls.__name__ + "App", (cls,), own)
+                for j in range(10):
+                    vt = App.controllers[f"rvmon_own_{j}"].value_type
+                    vt.max, vt.min = vt.min + 1, vt.min
+                res.count("application_types_with_own_declarations")
+            except Exception as e:
+                res.count("application_type_refused")
+                res.hist("application_type_refused_why", type(e).__name__)
             table = copy.deepcopy(cls.controllers)
             for c in table.values():
                 c.default, c.name, c.number = 12345, "edited", 99
